@@ -1067,3 +1067,104 @@ func eachFamilyHasItsOwnSettings(c *core.Ctx, rule string) {
 	}
 	c.Check(n >= 2, rule, "stores to PeerConfig.IPv4 / IPv6 in the configurator", 0, fmt.Sprintf("only %d found", n))
 }
+
+// decodedListsDoNotAliasSessionScratch: the lists processAttributes puts on a path are kept by the Adj-RIB-In for as long
+// as the path lives.  A list built on storage that belongs to the session object (a scratch slice kept in
+// fsmAddressFamily between calls) is overwritten by the next UPDATE: stored paths then show the attributes of a later
+// message.  Rule: no slice stored into the path in processAttributes has its backing array rooted at the receiver or in a package-level variable.
+func decodedListsDoNotAliasSessionScratch(c *core.Ctx, rule string) {
+	f := c.MustFunc(srv + ".(*fsmAddressFamily).processAttributes")
+	if f == nil {
+		return
+	}
+	c.Analysed(f)
+	recv := core.RecvObj(f)
+	path := core.ParamObj(f, 1)
+	var rooted func(e ast.Expr, depth int) bool
+	rooted = func(e ast.Expr, depth int) bool {
+		if depth > 4 {
+			return false
+		}
+		e = sliceBase(e)
+		if cl, ok := e.(*ast.CallExpr); ok {
+			if id, isId := cl.Fun.(*ast.Ident); isId && id.Name == "append" && len(cl.Args) > 0 {
+				return rooted(cl.Args[0], depth+1)
+			}
+			return false
+		}
+		root := rootObj(f, e)
+		if root == nil {
+			return false
+		}
+		if root == recv {
+			return true
+		}
+		// package-level storage outlives the call just the same
+		if v, isVar := root.(*types.Var); isVar && v.Pkg() != nil && v.Parent() == v.Pkg().Scope() {
+			return true
+		}
+		if id, ok := e.(*ast.Ident); ok && root != path {
+			for _, d := range core.DefsOf(f, core.ObjOf(f.Pkg, id)) {
+				if rooted(d, depth+1) {
+					return true
+				}
+			}
+		}
+		return false
+	}
+	n := 0
+	ast.Inspect(f.Decl.Body, func(nd ast.Node) bool {
+		as, ok := nd.(*ast.AssignStmt)
+		if !ok || len(as.Lhs) != len(as.Rhs) {
+			return true
+		}
+		for i, l := range as.Lhs {
+			if _, isSel := core.Unparen(l).(*ast.SelectorExpr); !isSel || rootObj(f, l) != path {
+				continue
+			}
+			if _, isSlice := f.Pkg.TypesInfo.TypeOf(l).Underlying().(*types.Slice); !isSlice {
+				continue
+			}
+			n++
+			c.Check(!rooted(as.Rhs[i], 0), rule, fmt.Sprintf("%s list store #%d into the path owns its storage", f.Name(), n), as.Pos(),
+				"the list stored into the path is a slice of storage held by the session object: the next UPDATE overwrites it, so paths already in the Adj-RIB-In change their attributes")
+		}
+		return true
+	})
+	c.Check(n >= 1, rule, f.Name()+" stores lists into the path", f.Decl.Pos(), "no slice-typed store into the path found")
+}
+
+// bmpPeerASNFromThePerPeerHeader: the AS of a monitored peer is the 4-octet Peer AS of the BMP per-peer header.  The
+// 2-octet "My Autonomous System" field of the received OPEN is AS_TRANS (23456) for every peer in a 4-octet AS: taken
+// from there, an iBGP session inside such an AS is treated as eBGP (paths marked EBGP, locally originated routes hidden).
+func bmpPeerASNFromThePerPeerHeader(c *core.Ctx, rule string) {
+	f := c.MustFunc(srv + ".(*Router).processPeerUpNotification")
+	if f == nil {
+		return
+	}
+	c.Analysed(f)
+	peerASN := c.P.Field(srv, "peer", "peerASN")
+	hdrAS := c.P.Field("protocols/bmp/packet", "PerPeerHeader", "PeerAS")
+	n := 0
+	judge := func(v ast.Expr, at ast.Node) {
+		n++
+		c.Check(hdrAS != nil && core.MentionsField(f.Pkg, v, hdrAS), rule, fmt.Sprintf("%s peerASN store #%d takes the per-peer header's Peer AS", f.Name(), n), at.Pos(),
+			"the monitored peer's AS is not taken from the BMP per-peer header (4 octets): the OPEN's 2-octet field is AS_TRANS for 4-octet AS numbers")
+	}
+	ast.Inspect(f.Decl.Body, func(nd ast.Node) bool {
+		switch x := nd.(type) {
+		case *ast.KeyValueExpr:
+			if id, ok := x.Key.(*ast.Ident); ok && f.Pkg.TypesInfo.ObjectOf(id) == types.Object(peerASN) {
+				judge(x.Value, x)
+			}
+		case *ast.AssignStmt:
+			for i, l := range x.Lhs {
+				if core.FieldOf(f.Pkg, l) == peerASN && len(x.Lhs) == len(x.Rhs) {
+					judge(x.Rhs[i], x)
+				}
+			}
+		}
+		return true
+	})
+	c.Check(n >= 1, rule, f.Name()+" sets the peer's AS", f.Decl.Pos(), "no store to peer.peerASN found")
+}
